@@ -229,11 +229,37 @@ def simp_bits(know, bits):
     return tuple(out)
 
 
+def _full_opq_leaf(bits):
+    """If bits are exactly all bits of one opaque trunc/lin/wrap leaf, return it."""
+    b0 = bits[0]
+    if not isinstance(b0, tuple):
+        return None
+    leaf = b0[0]
+    if leaf[0] != 'opq' or leaf[2] not in ('trunc', 'lin', 'wrap') or leaf[1] != len(bits):
+        return None
+    for i, b in enumerate(bits):
+        if not isinstance(b, tuple) or b[0] != leaf or b[1] != i:
+            return None
+    return leaf
+
+
 def simp(know, t):
-    """Canonical form of a term under the path knowledge (pinned leaves become constants)."""
+    """Canonical form of a term under the path knowledge (pinned leaves become constants;
+    a truncation whose operand provably fits is replaced by the operand)."""
     if t[0] == 'k':
         return t
     if t[0] == 'bv':
+        leaf = _full_opq_leaf(t[2])
+        if leaf is not None:
+            inner = leaf[3] if leaf[2] != 'lin' else ('lin', leaf[1], leaf[3][0], leaf[3][1])
+            inner = simp(know, inner)
+            if inner[0] == 'k':
+                return K(t[1], inner[2])
+            if inner[0] == 'lin':
+                lo, hi = know.interval(inner[2], dict(inner[3]))
+                if lo >= 0 and hi < (1 << t[1]):
+                    return mk_lin(t[1], inner[2], dict(inner[3]))
+            return t
         return mk_bv(t[1], simp_bits(know, t[2]))
     if t[0] == 'lin':
         c0 = t[2]
